@@ -9,7 +9,7 @@ out=f'/verif/seeded/{name}'; os.makedirs(out,exist_ok=True)
 patch=sh("git diff",cwd=wt).stdout
 assert patch.strip(), "no source change in worktree"
 open(f'{out}/patch.diff','w').write(patch)
-demos=[l[3:] for l in sh("git status --porcelain",cwd=wt).stdout.splitlines() if l.startswith('??') and l.endswith('.rs')]
+demos=[l[3:] for l in sh("git status --porcelain -uall",cwd=wt).stdout.splitlines() if l.startswith('??') and l.endswith('.rs')]
 assert demos, "no demo file"
 for d in demos: shutil.copy(os.path.join(wt,d), f'{out}/'+os.path.basename(d))
 demo=demos[0]; test_name=os.path.basename(demo)[:-3]
@@ -31,7 +31,7 @@ other=[l for l in failed if 'test_display' not in l and test_name not in l]
 print("demo with change rc",demo_with,"without rc",demo_without,"suite failed lines:",failed)
 results={}
 if ok:
-    assert sh("git status --porcelain",cwd='/repo').stdout.strip()=='', "/repo dirty"
+    assert sh("git status --porcelain -uall",cwd='/repo').stdout.strip()=='', "/repo dirty"
     sh(f"git apply {out}/patch.diff",cwd='/repo')
     try:
         for c in checks:
